@@ -3409,6 +3409,11 @@ class PyCdlib:
             # The maximum length we allow in one directory record is 0xfffff800
             # (this is taken from xorriso, though I don't really know why).
             thislen = min(left, 0xfffff800)
+            if not iso_path and not joliet_path:
+                # A file that only has a UDF name is described by one File
+                # Entry (with as many allocation descriptors as needed), so
+                # it is not split.
+                thislen = left
 
             ino = None
             if fp is not None:
